@@ -352,6 +352,8 @@ def run_slots(shard, spec):
             addr = rng.choice([0x8000, 0x7FFE, 0xBFFD, 0xFFFD, 0xFFFE, 0xFFFF, 0x3FFE, 0x4000, rng.randrange(65536)])
             b = [x if x is not None else rng.randrange(256) for x in seq] + [rng.randrange(256) for _ in range(3)]
             regs = slot_state(rng, addr)
+            if b[0] == 0x76 and rng.random() < 0.5:
+                regs[28] = 1
             patches = {}
             for i, x in enumerate(b):
                 patches[(addr + i) & 0xFFFF] = x
